@@ -27,7 +27,7 @@ several foci):
   resources c:1 c:2 c:3 c:4 c:5 c:8 c:9 | c:2,d:3 | unknown class | c:1,unknown   (c = focus class;
             the baseline templates and the inventory variants make these amounts hit: fits, fits
             exactly, exceeds capacity only, min_unit only, max_unit only, step_size only, and both
-            sides of the fractional boundary 4.5)
+            sides of the fractional boundary 3.5)
 and their combinations (see `queries`): singles, all pairs, (thorough) triples, all-six-active over
 a reduced menu, at 1.39 and at 1.3 / 1.4 / 1.14 / 1.18 / 1.22 / 1.24 / 1.32 / 1.38 for the values
 introduced or changed there (never below a value's introduction: that is C14's table).
